@@ -174,6 +174,28 @@ func (w *randomWorkload) Next(block int) []rig.Tx {
 		}
 		out = append(out, r.Mk(a, &rndTag{Kind: kind, Key: fmt.Sprint(interval)}, &randomtypes.MsgRequestRandom{BlockInterval: interval, Consumer: a.Addr.String(), Oracle: oracle, ServiceFeeCap: cap}))
 	}
+	// one transaction carrying requests of two (three) distinct requesters, signed by all of them: the requests share the
+	// transaction hash and differ in the message index only
+	if block%7 == 3 && n+3 <= len(perm) {
+		k := 2 + rng.Intn(2)
+		oracle := rng.Intn(3) > 0
+		var as []*rig.Account
+		var msgs []sdk.Msg
+		for i := 0; i < k; i++ {
+			a := r.Acc(2 + perm[n+i])
+			var cap sdk.Coins
+			if oracle {
+				cap = sdk.NewCoins(sdk.NewInt64Coin(rig.BondDenom, 10))
+			}
+			as = append(as, a)
+			msgs = append(msgs, &randomtypes.MsgRequestRandom{BlockInterval: uint64(1 + rng.Intn(3)), Consumer: a.Addr.String(), Oracle: oracle, ServiceFeeCap: cap})
+		}
+		kind := "request"
+		if oracle {
+			kind = "request-oracle"
+		}
+		out = append(out, r.MkMulti(as, &rndTag{Kind: kind, Key: "one-tx-several-requesters"}, msgs...))
+	}
 	return out
 }
 
@@ -195,22 +217,30 @@ func (w *randomWorkload) Observe(br *rig.BlockRecord) {
 			if !tx.OK() {
 				continue
 			}
-			m := tx.Msgs[0].(*randomtypes.MsgRequestRandom)
-			id := reqIDOf(H, m.Consumer)
-			if _, dup := w.reqs[id]; dup {
-				continue // out of scope: second request of one requester in one block
+			if len(tx.Msgs) > 1 {
+				run.Count("requests-of-several-requesters-in-one-tx", 1)
 			}
-			rq := &rndReq{Consumer: m.Consumer, H: H, Due: H + int64(m.BlockInterval), Oracle: m.Oracle}
-			w.reqs[id] = rq
-			if m.Oracle && tx.Post != nil {
-				// the service context created for it: find through the queued request record
-				r.K.Random.IterateRandomRequestQueue(r.Ctx(), func(h int64, reqID []byte, q randomtypes.Request) bool {
-					if hex.EncodeToString(reqID) == id {
-						rq.CtxID = q.ServiceContextID
-					}
-					return false
-				})
-				w.byCtx[rq.CtxID] = id
+			for _, mm := range tx.Msgs {
+				m, isReq := mm.(*randomtypes.MsgRequestRandom)
+				if !isReq {
+					continue
+				}
+				id := reqIDOf(H, m.Consumer)
+				if _, dup := w.reqs[id]; dup {
+					continue // out of scope: second request of one requester in one block
+				}
+				rq := &rndReq{Consumer: m.Consumer, H: H, Due: H + int64(m.BlockInterval), Oracle: m.Oracle}
+				w.reqs[id] = rq
+				if m.Oracle && tx.Post != nil {
+					// the service context created for it: find through the queued request record
+					r.K.Random.IterateRandomRequestQueue(r.Ctx(), func(h int64, reqID []byte, q randomtypes.Request) bool {
+						if hex.EncodeToString(reqID) == id {
+							rq.CtxID = q.ServiceContextID
+						}
+						return false
+					})
+					w.byCtx[rq.CtxID] = id
+				}
 			}
 		}
 	}
